@@ -20,7 +20,7 @@
       `RoundMachine.Step` successor of `absTokens idx s`.
 
   Structure of the file
-    1. `Frame` / `Keeps` (definitions in the Models file): combinators (`bind`, `forIn`, `mapM`, `tryCatch`, …) and the
+    1. `Frame` / `KeepsFr` (definitions in the Models file): combinators (`bind`, `forIn`, `mapM`, `tryCatch`, …) and the
        tactic `keeps`; proved for every look-up / non-index write used by `slideStep` and for the evaluation functions.
     2. index writes: `applyOp_ok`, `step_setPos_head`, `attemptPy_run`, `nameFor_error_pos`, `setHeadPos_spec`.
     3. `Lands`: a Hoare-style specification "if head `k` (data `hd`) exists and the flow's config is `cfg`, then after a
@@ -39,10 +39,10 @@ theorem Frame.refl (s : VM) : Frame s s := ⟨rfl, rfl, rfl⟩
 theorem Frame.trans {a b c : VM} (h1 : Frame a b) (h2 : Frame b c) : Frame a c :=
   ⟨h2.ixs.trans h1.ixs, h2.prog.trans h1.prog, h2.ids.trans h1.ids⟩
 
-theorem Keeps.pure {α : Type} (a : α) : Keeps (EStateM.pure a : M α) := ⟨fun s => Frame.refl s⟩
+theorem KeepsFr.pure {α : Type} (a : α) : KeepsFr (EStateM.pure a : M α) := ⟨fun s => Frame.refl s⟩
 
-theorem Keeps.bind {α β : Type} {x : M α} {f : α → M β} (hx : Keeps x) (hf : ∀ a, Keeps (f a)) :
-    Keeps (EStateM.bind x f) := by
+theorem KeepsFr.bind {α β : Type} {x : M α} {f : α → M β} (hx : KeepsFr x) (hf : ∀ a, KeepsFr (f a)) :
+    KeepsFr (EStateM.bind x f) := by
   refine ⟨fun s => ?_⟩
   have h1 := hx.frame s
   unfold EStateM.bind
@@ -54,13 +54,13 @@ theorem Keeps.bind {α β : Type} {x : M α} {f : α → M β} (hx : Keeps x) (h
     rw [hxs] at h1
     exact h1
 
-theorem Keeps.throw {α : Type} (e : VMErr) : Keeps (EStateM.throw e : M α) := ⟨fun s => Frame.refl s⟩
-theorem Keeps.pyRaise {α : Type} (c m : String) : Keeps (pyRaise c m : M α) := ⟨fun s => Frame.refl s⟩
-theorem Keeps.unsupported {α : Type} (w : String) : Keeps (unsupported w : M α) := ⟨fun s => Frame.refl s⟩
-theorem Keeps.get : Keeps (EStateM.get : M VM) := ⟨fun s => Frame.refl s⟩
+theorem KeepsFr.throw {α : Type} (e : VMErr) : KeepsFr (EStateM.throw e : M α) := ⟨fun s => Frame.refl s⟩
+theorem KeepsFr.pyRaise {α : Type} (c m : String) : KeepsFr (pyRaise c m : M α) := ⟨fun s => Frame.refl s⟩
+theorem KeepsFr.unsupported {α : Type} (w : String) : KeepsFr (unsupported w : M α) := ⟨fun s => Frame.refl s⟩
+theorem KeepsFr.get : KeepsFr (EStateM.get : M VM) := ⟨fun s => Frame.refl s⟩
 
-theorem Keeps.tryCatch {α : Type} {x : M α} {hdl : VMErr → M α} (hx : Keeps x) (hh : ∀ e, Keeps (hdl e)) :
-    Keeps (tryCatch x hdl) := by
+theorem KeepsFr.tryCatch {α : Type} {x : M α} {hdl : VMErr → M α} (hx : KeepsFr x) (hh : ∀ e, KeepsFr (hdl e)) :
+    KeepsFr (tryCatch x hdl) := by
   refine ⟨fun s => ?_⟩
   have h1 := hx.frame s
   show Frame s (resSt (EStateM.tryCatch x hdl s))
@@ -73,30 +73,30 @@ theorem Keeps.tryCatch {α : Type} {x : M α} {hdl : VMErr → M α} (hx : Keeps
   · rename_i hne
     exact h1
 
-theorem Keeps.modifyRest (g : Rest → Rest) (hp : ∀ r, (g r).prog = r.prog) (hi : ∀ r, fxIds (g r).fx = fxIds r.fx) :
-    Keeps (modifyRest g) := by
+theorem KeepsFr.modifyRest (g : Rest → Rest) (hp : ∀ r, (g r).prog = r.prog) (hi : ∀ r, fxIds (g r).fx = fxIds r.fx) :
+    KeepsFr (modifyRest g) := by
   exact ⟨fun s => ⟨rfl, hp s.r, hi s.r⟩⟩
 
-theorem Keeps.forIn {β σ : Type} (l : List β) (init : σ) (body : β → σ → M (ForInStep σ))
-    (hb : ∀ a b, Keeps (body a b)) : Keeps (forIn l init body) := by
+theorem KeepsFr.forIn {β σ : Type} (l : List β) (init : σ) (body : β → σ → M (ForInStep σ))
+    (hb : ∀ a b, KeepsFr (body a b)) : KeepsFr (forIn l init body) := by
   induction l generalizing init with
   | nil => exact ⟨fun s => Frame.refl s⟩
   | cons a as ih =>
     rw [List.forIn_cons]
-    apply Keeps.bind (hb a init)
+    apply KeepsFr.bind (hb a init)
     intro r
     cases r with
     | done b => exact ⟨fun s => Frame.refl s⟩
     | yield b => exact ih b
 
-theorem Keeps.mapM {β γ : Type} (g : β → M γ) (l : List β) (hg : ∀ a, Keeps (g a)) : Keeps (l.mapM g) := by
+theorem KeepsFr.mapM {β γ : Type} (g : β → M γ) (l : List β) (hg : ∀ a, KeepsFr (g a)) : KeepsFr (l.mapM g) := by
   induction l with
   | nil => exact ⟨fun s => Frame.refl s⟩
   | cons a as ih =>
     rw [List.mapM_cons]
-    apply Keeps.bind (hg a)
+    apply KeepsFr.bind (hg a)
     intro b
-    apply Keeps.bind ih
+    apply KeepsFr.bind ih
     intro bs
     exact ⟨fun s => Frame.refl s⟩
 
@@ -112,23 +112,23 @@ theorem fxIds_modify (f : FUid) (g : InstX → InstX) (hg : ∀ x, (g x).flowId 
     · simp only [fxIds, List.map_cons, hg] at ih ⊢; rw [ih]
     · simp only [fxIds, List.map_cons] at ih ⊢; rw [ih]
 
-theorem Keeps.modInstX (f : FUid) (g : InstX → InstX) (hg : ∀ x, (g x).flowId = x.flowId) : Keeps (modInstX f g) :=
-  Keeps.modifyRest _ (fun _ => rfl) (fun r => fxIds_modify f g hg r.fx)
+theorem KeepsFr.modInstX (f : FUid) (g : InstX → InstX) (hg : ∀ x, (g x).flowId = x.flowId) : KeepsFr (modInstX f g) :=
+  KeepsFr.modifyRest _ (fun _ => rfl) (fun r => fxIds_modify f g hg r.fx)
 
 syntax "keeps_known" : tactic
-macro_rules | `(tactic| keeps_known) => `(tactic| fail "no known Keeps lemma")
+macro_rules | `(tactic| keeps_known) => `(tactic| fail "no known KeepsFr lemma")
 
 /-- the closing / decomposing steps, at whatever transparency the caller sets -/
 macro "keeps_core" : tactic => `(tactic| first
   | keeps_known
-  | exact Keeps.pure _
-  | exact Keeps.throw _ | exact Keeps.pyRaise _ _ | exact Keeps.unsupported _ | exact Keeps.get
-  | (apply Keeps.modInstX; intro _; rfl)
-  | (apply Keeps.modifyRest <;> (intro _; rfl))
-  | apply Keeps.tryCatch
-  | apply Keeps.forIn
-  | apply Keeps.mapM
-  | apply Keeps.bind)
+  | exact KeepsFr.pure _
+  | exact KeepsFr.throw _ | exact KeepsFr.pyRaise _ _ | exact KeepsFr.unsupported _ | exact KeepsFr.get
+  | (apply KeepsFr.modInstX; intro _; rfl)
+  | (apply KeepsFr.modifyRest <;> (intro _; rfl))
+  | apply KeepsFr.tryCatch
+  | apply KeepsFr.forIn
+  | apply KeepsFr.mapM
+  | apply KeepsFr.bind)
 
 macro "keeps_step" : tactic => `(tactic| first
   | assumption
@@ -140,73 +140,73 @@ macro "keeps_step" : tactic => `(tactic| first
   | dsimp only)
 macro "keeps" : tactic => `(tactic| repeat keeps_step)
 
-theorem keeps_getRest : Keeps getRest := by unfold getRest; keeps
+theorem keeps_getRest : KeepsFr getRest := by unfold getRest; keeps
 macro_rules | `(tactic| keeps_known) => `(tactic| exact keeps_getRest)
-theorem keeps_getIx : Keeps getIx := by unfold getIx; keeps
+theorem keeps_getIx : KeepsFr getIx := by unfold getIx; keeps
 macro_rules | `(tactic| keeps_known) => `(tactic| exact keeps_getIx)
-theorem keeps_freshUid : Keeps freshUid := by unfold freshUid; keeps
+theorem keeps_freshUid : KeepsFr freshUid := by unfold freshUid; keeps
 macro_rules | `(tactic| keeps_known) => `(tactic| exact keeps_freshUid)
-theorem keeps_getInstX? (f) : Keeps (getInstX? f) := by unfold getInstX?; keeps
+theorem keeps_getInstX? (f) : KeepsFr (getInstX? f) := by unfold getInstX?; keeps
 macro_rules | `(tactic| keeps_known) => `(tactic| exact keeps_getInstX? _)
-theorem keeps_getInstX (f) : Keeps (getInstX f) := by unfold getInstX; keeps
+theorem keeps_getInstX (f) : KeepsFr (getInstX f) := by unfold getInstX; keeps
 macro_rules | `(tactic| keeps_known) => `(tactic| exact keeps_getInstX _)
-theorem keeps_ctxHolder (f) : Keeps (ctxHolder f) := by unfold ctxHolder; keeps
+theorem keeps_ctxHolder (f) : KeepsFr (ctxHolder f) := by unfold ctxHolder; keeps
 macro_rules | `(tactic| keeps_known) => `(tactic| exact keeps_ctxHolder _)
-theorem keeps_getCtx (f) : Keeps (getCtx f) := by unfold getCtx; keeps
+theorem keeps_getCtx (f) : KeepsFr (getCtx f) := by unfold getCtx; keeps
 macro_rules | `(tactic| keeps_known) => `(tactic| exact keeps_getCtx _)
-theorem keeps_setCtxVar (f k v) : Keeps (setCtxVar f k v) := by unfold setCtxVar; keeps
+theorem keeps_setCtxVar (f k v) : KeepsFr (setCtxVar f k v) := by unfold setCtxVar; keeps
 macro_rules | `(tactic| keeps_known) => `(tactic| exact keeps_setCtxVar _ _ _)
-theorem keeps_getAction? (u) : Keeps (getAction? u) := by unfold getAction?; keeps
+theorem keeps_getAction? (u) : KeepsFr (getAction? u) := by unfold getAction?; keeps
 macro_rules | `(tactic| keeps_known) => `(tactic| exact keeps_getAction? _)
-theorem keeps_lookupVar (c n) : Keeps (lookupVar c n) := by unfold lookupVar; keeps
+theorem keeps_lookupVar (c n) : KeepsFr (lookupVar c n) := by unfold lookupVar; keeps
 macro_rules | `(tactic| keeps_known) => `(tactic| exact keeps_lookupVar _ _)
 
-theorem keeps_valueErr {α : Type} (m : String) : Keeps (valueErr m : M α) := Keeps.pyRaise _ _
+theorem keeps_valueErr {α : Type} (m : String) : KeepsFr (valueErr m : M α) := KeepsFr.pyRaise _ _
 macro_rules | `(tactic| keeps_known) => `(tactic| exact keeps_valueErr _)
 
-theorem keeps_attrOf (v a l) : Keeps (attrOf v a l) := by unfold attrOf; keeps
+theorem keeps_attrOf (v a l) : KeepsFr (attrOf v a l) := by unfold attrOf; keeps
 macro_rules | `(tactic| keeps_known) => `(tactic| exact keeps_attrOf _ _ _)
 
 section evalStep
 set_option linter.unusedSectionVars false
-variable (n : Nat) (ih1 : ∀ c e, Keeps (evalExpr c n e)) (ih2 : ∀ c e, Keeps (evalBase c n e)) (c : EvalCtx)
+variable (n : Nat) (ih1 : ∀ c e, KeepsFr (evalExpr c n e)) (ih2 : ∀ c e, KeepsFr (evalBase c n e)) (c : EvalCtx)
 include ih1 ih2
-theorem keeps_evalExpr_lit (v) : Keeps (evalExpr c (n+1) (.lit v)) := by
+theorem keeps_evalExpr_lit (v) : KeepsFr (evalExpr c (n+1) (.lit v)) := by
   simp only [evalExpr]; keeps
-theorem keeps_evalExpr_interp (v) : Keeps (evalExpr c (n+1) (.interp v)) := by
+theorem keeps_evalExpr_interp (v) : KeepsFr (evalExpr c (n+1) (.interp v)) := by
   simp only [evalExpr]; keeps
-theorem keeps_evalExpr_var (v) : Keeps (evalExpr c (n+1) (.var v)) := by
+theorem keeps_evalExpr_var (v) : KeepsFr (evalExpr c (n+1) (.var v)) := by
   simp only [evalExpr]; keeps
-theorem keeps_evalExpr_name (v) : Keeps (evalExpr c (n+1) (.name v)) := by
+theorem keeps_evalExpr_name (v) : KeepsFr (evalExpr c (n+1) (.name v)) := by
   simp only [evalExpr]; keeps
-theorem keeps_evalExpr_attr (e a) : Keeps (evalExpr c (n+1) (.attr e a)) := by
+theorem keeps_evalExpr_attr (e a) : KeepsFr (evalExpr c (n+1) (.attr e a)) := by
   simp only [evalExpr]; keeps
-theorem keeps_evalExpr_index (e a) : Keeps (evalExpr c (n+1) (.index e a)) := by
+theorem keeps_evalExpr_index (e a) : KeepsFr (evalExpr c (n+1) (.index e a)) := by
   simp only [evalExpr]; keeps
-theorem keeps_evalExpr_not (e) : Keeps (evalExpr c (n+1) (.not e)) := by
+theorem keeps_evalExpr_not (e) : KeepsFr (evalExpr c (n+1) (.not e)) := by
   simp only [evalExpr]; keeps
-theorem keeps_evalExpr_and (e) : Keeps (evalExpr c (n+1) (.and e)) := by
+theorem keeps_evalExpr_and (e) : KeepsFr (evalExpr c (n+1) (.and e)) := by
   simp only [evalExpr]; keeps
-theorem keeps_evalExpr_or (e) : Keeps (evalExpr c (n+1) (.or e)) := by
+theorem keeps_evalExpr_or (e) : KeepsFr (evalExpr c (n+1) (.or e)) := by
   simp only [evalExpr]; keeps
-theorem keeps_evalExpr_cmp (e r) : Keeps (evalExpr c (n+1) (.cmp e r)) := by
+theorem keeps_evalExpr_cmp (e r) : KeepsFr (evalExpr c (n+1) (.cmp e r)) := by
   simp only [evalExpr]; keeps
-theorem keeps_evalExpr_bin (o a b) : Keeps (evalExpr c (n+1) (.bin o a b)) := by
+theorem keeps_evalExpr_bin (o a b) : KeepsFr (evalExpr c (n+1) (.bin o a b)) := by
   simp only [evalExpr]; keeps
-theorem keeps_evalExpr_neg (e) : Keeps (evalExpr c (n+1) (.neg e)) := by
+theorem keeps_evalExpr_neg (e) : KeepsFr (evalExpr c (n+1) (.neg e)) := by
   simp only [evalExpr]; keeps
-theorem keeps_evalExpr_call (f args) : Keeps (evalExpr c (n+1) (.call f args)) := by
+theorem keeps_evalExpr_call (f args) : KeepsFr (evalExpr c (n+1) (.call f args)) := by
   simp only [evalExpr]; keeps
-theorem keeps_evalExpr_list (e) : Keeps (evalExpr c (n+1) (.list e)) := by
+theorem keeps_evalExpr_list (e) : KeepsFr (evalExpr c (n+1) (.list e)) := by
   simp only [evalExpr]; keeps
-theorem keeps_evalExpr_set (e) : Keeps (evalExpr c (n+1) (.set e)) := by
+theorem keeps_evalExpr_set (e) : KeepsFr (evalExpr c (n+1) (.set e)) := by
   simp only [evalExpr]; keeps
-theorem keeps_evalExpr_dict (e) : Keeps (evalExpr c (n+1) (.dict e)) := by
+theorem keeps_evalExpr_dict (e) : KeepsFr (evalExpr c (n+1) (.dict e)) := by
   simp only [evalExpr]; keeps
-theorem keeps_evalExpr_unsupported (e) : Keeps (evalExpr c (n+1) (.unsupported e)) := by
+theorem keeps_evalExpr_unsupported (e) : KeepsFr (evalExpr c (n+1) (.unsupported e)) := by
   simp only [evalExpr]; keeps
 
-theorem keeps_evalExpr_succ (e) : Keeps (evalExpr c (n+1) e) := by
+theorem keeps_evalExpr_succ (e) : KeepsFr (evalExpr c (n+1) e) := by
   cases e with
   | lit v => exact keeps_evalExpr_lit n ih1 ih2 c v
   | interp parts => exact keeps_evalExpr_interp n ih1 ih2 c parts
@@ -226,85 +226,85 @@ theorem keeps_evalExpr_succ (e) : Keeps (evalExpr c (n+1) e) := by
   | set es => exact keeps_evalExpr_set n ih1 ih2 c es
   | unsupported why => exact keeps_evalExpr_unsupported n ih1 ih2 c why
 
-theorem keeps_evalBase_succ (e) : Keeps (evalBase c (n+1) e) := by
+theorem keeps_evalBase_succ (e) : KeepsFr (evalBase c (n+1) e) := by
   cases e <;> simp only [evalBase] <;> keeps
 end evalStep
 
-theorem keeps_evalExpr_aux : ∀ fuel : Nat, (∀ c e, Keeps (evalExpr c fuel e)) ∧ (∀ c e, Keeps (evalBase c fuel e)) := by
+theorem keeps_evalExpr_aux : ∀ fuel : Nat, (∀ c e, KeepsFr (evalExpr c fuel e)) ∧ (∀ c e, KeepsFr (evalBase c fuel e)) := by
   intro fuel
   induction fuel with
   | zero =>
     constructor
-    · intro c e; rw [evalExpr.eq_1]; exact Keeps.throw _
-    · intro c e; rw [evalBase.eq_1]; exact Keeps.throw _
+    · intro c e; rw [evalExpr.eq_1]; exact KeepsFr.throw _
+    · intro c e; rw [evalBase.eq_1]; exact KeepsFr.throw _
   | succ n ih =>
     exact ⟨fun c e => keeps_evalExpr_succ n ih.1 ih.2 c e, fun c e => keeps_evalBase_succ n ih.1 ih.2 c e⟩
 
-theorem keeps_evalExpr (c : EvalCtx) (fuel : Nat) (e : Expr) : Keeps (evalExpr c fuel e) := (keeps_evalExpr_aux fuel).1 c e
+theorem keeps_evalExpr (c : EvalCtx) (fuel : Nat) (e : Expr) : KeepsFr (evalExpr c fuel e) := (keeps_evalExpr_aux fuel).1 c e
 macro_rules | `(tactic| keeps_known) => `(tactic| exact keeps_evalExpr _ _ _)
-theorem keeps_evalBase (c : EvalCtx) (fuel : Nat) (e : Expr) : Keeps (evalBase c fuel e) := (keeps_evalExpr_aux fuel).2 c e
+theorem keeps_evalBase (c : EvalCtx) (fuel : Nat) (e : Expr) : KeepsFr (evalBase c fuel e) := (keeps_evalExpr_aux fuel).2 c e
 macro_rules | `(tactic| keeps_known) => `(tactic| exact keeps_evalBase _ _ _)
 
-theorem keeps_evalIn (f : FUid) (e : Expr) : Keeps (evalIn f e) := by unfold evalIn; keeps
+theorem keeps_evalIn (f : FUid) (e : Expr) : KeepsFr (evalIn f e) := by unfold evalIn; keeps
 macro_rules | `(tactic| keeps_known) => `(tactic| exact keeps_evalIn _ _)
-theorem keeps_evalEmpty (e : Expr) : Keeps (evalEmpty e) := by unfold evalEmpty; keeps
+theorem keeps_evalEmpty (e : Expr) : KeepsFr (evalEmpty e) := by unfold evalEmpty; keeps
 macro_rules | `(tactic| keeps_known) => `(tactic| exact keeps_evalEmpty _)
-theorem keeps_evalArgs (f : FUid) (args : List (String × Expr)) : Keeps (evalArgs f args) := by unfold evalArgs; keeps
+theorem keeps_evalArgs (f : FUid) (args : List (String × Expr)) : KeepsFr (evalArgs f args) := by unfold evalArgs; keeps
 macro_rules | `(tactic| keeps_known) => `(tactic| exact keeps_evalArgs _ _)
 
 
 /-! ### events -/
 
-theorem keeps_flowObjOf (f : FUid) : Keeps (flowObjOf f) := by unfold flowObjOf; keeps
+theorem keeps_flowObjOf (f : FUid) : KeepsFr (flowObjOf f) := by unfold flowObjOf; keeps
 macro_rules | `(tactic| keeps_known) => `(tactic| exact keeps_flowObjOf _)
-theorem keeps_flowStartEvent (o : FlowObj) (args) : Keeps (flowStartEvent o args) := by unfold flowStartEvent; keeps
+theorem keeps_flowStartEvent (o : FlowObj) (args) : KeepsFr (flowStartEvent o args) := by unfold flowStartEvent; keeps
 macro_rules | `(tactic| keeps_known) => `(tactic| exact keeps_flowStartEvent _ _)
-theorem keeps_flowGetEvent (o : FlowObj) (n : String) (args) : Keeps (flowGetEvent o n args) := by unfold flowGetEvent; keeps
+theorem keeps_flowGetEvent (o : FlowObj) (n : String) (args) : KeepsFr (flowGetEvent o n args) := by unfold flowGetEvent; keeps
 macro_rules | `(tactic| keeps_known) => `(tactic| exact keeps_flowGetEvent _ _ _)
-theorem keeps_actionGetEvent (a : Action) (n : String) (args) : Keeps (actionGetEvent a n args) := by
+theorem keeps_actionGetEvent (a : Action) (n : String) (args) : KeepsFr (actionGetEvent a n args) := by
   unfold actionGetEvent; dsimp only; keeps
 macro_rules | `(tactic| keeps_known) => `(tactic| exact keeps_actionGetEvent _ _ _)
-theorem keeps_instanceArguments (cfg : FlowCfg) (evArgs) : Keeps (instanceArguments cfg evArgs) := by unfold instanceArguments; keeps
+theorem keeps_instanceArguments (cfg : FlowCfg) (evArgs) : KeepsFr (instanceArguments cfg evArgs) := by unfold instanceArguments; keeps
 macro_rules | `(tactic| keeps_known) => `(tactic| exact keeps_instanceArguments _ _)
-theorem keeps_getCfg (id : String) : Keeps (getCfg id) := by unfold getCfg; keeps
+theorem keeps_getCfg (id : String) : KeepsFr (getCfg id) := by unfold getCfg; keeps
 macro_rules | `(tactic| keeps_known) => `(tactic| exact keeps_getCfg _)
-theorem keeps_tempFlowObj (n : String) : Keeps (tempFlowObj n) := by unfold tempFlowObj; keeps
+theorem keeps_tempFlowObj (n : String) : KeepsFr (tempFlowObj n) := by unfold tempFlowObj; keeps
 macro_rules | `(tactic| keeps_known) => `(tactic| exact keeps_tempFlowObj _)
-theorem keeps_tempAction (n : String) (args) : Keeps (tempAction n args) := by unfold tempAction; keeps
+theorem keeps_tempAction (n : String) (args) : KeepsFr (tempAction n args) := by unfold tempAction; keeps
 macro_rules | `(tactic| keeps_known) => `(tactic| exact keeps_tempAction _ _)
-theorem keeps_resolveRef (f : FUid) (spec : Spec) (v : String) : Keeps (resolveRef f spec v) := by unfold resolveRef; keeps
+theorem keeps_resolveRef (f : FUid) (spec : Spec) (v : String) : KeepsFr (resolveRef f spec v) := by unfold resolveRef; keeps
 macro_rules | `(tactic| keeps_known) => `(tactic| exact keeps_resolveRef _ _ _)
-theorem keeps_getEventName (f : FUid) (spec : Spec) : Keeps (getEventName f spec) := by unfold getEventName; keeps
+theorem keeps_getEventName (f : FUid) (spec : Spec) : KeepsFr (getEventName f spec) := by unfold getEventName; keeps
 macro_rules | `(tactic| keeps_known) => `(tactic| exact keeps_getEventName _ _)
-theorem keeps_getEvent (f : FUid) (spec : Spec) (isMatch : Bool) : Keeps (getEvent f spec isMatch) := by unfold getEvent; keeps
+theorem keeps_getEvent (f : FUid) (spec : Spec) (isMatch : Bool) : KeepsFr (getEvent f spec isMatch) := by unfold getEvent; keeps
 macro_rules | `(tactic| keeps_known) => `(tactic| exact keeps_getEvent _ _ _)
 
 
 /-! ### the remaining look-ups and non-index writes of `slideStep` -/
 
-theorem keeps_getInst? (f) : Keeps (getInst? f) := by unfold getInst?; keeps
+theorem keeps_getInst? (f) : KeepsFr (getInst? f) := by unfold getInst?; keeps
 macro_rules | `(tactic| keeps_known) => `(tactic| exact keeps_getInst? _)
-theorem keeps_getInst (f) : Keeps (getInst f) := by unfold getInst; keeps
+theorem keeps_getInst (f) : KeepsFr (getInst f) := by unfold getInst; keeps
 macro_rules | `(tactic| keeps_known) => `(tactic| exact keeps_getInst _)
-theorem keeps_getHead? (k) : Keeps (getHead? k) := by unfold getHead?; keeps
+theorem keeps_getHead? (k) : KeepsFr (getHead? k) := by unfold getHead?; keeps
 macro_rules | `(tactic| keeps_known) => `(tactic| exact keeps_getHead? _)
-theorem keeps_getHeadX (k) : Keeps (getHeadX k) := by unfold getHeadX; keeps
+theorem keeps_getHeadX (k) : KeepsFr (getHeadX k) := by unfold getHeadX; keeps
 macro_rules | `(tactic| keeps_known) => `(tactic| exact keeps_getHeadX _)
-theorem keeps_modHeadX (k g) : Keeps (modHeadX k g) := by unfold modHeadX; keeps
+theorem keeps_modHeadX (k g) : KeepsFr (modHeadX k g) := by unfold modHeadX; keeps
 macro_rules | `(tactic| keeps_known) => `(tactic| exact keeps_modHeadX _ _)
-theorem keeps_cfgOfInst (f) : Keeps (cfgOfInst f) := by unfold cfgOfInst; keeps
+theorem keeps_cfgOfInst (f) : KeepsFr (cfgOfInst f) := by unfold cfgOfInst; keeps
 macro_rules | `(tactic| keeps_known) => `(tactic| exact keeps_cfgOfInst _)
-theorem keeps_setAction (a) : Keeps (setAction a) := by unfold setAction; keeps
+theorem keeps_setAction (a) : KeepsFr (setAction a) := by unfold setAction; keeps
 macro_rules | `(tactic| keeps_known) => `(tactic| exact keeps_setAction _)
-theorem keeps_pushEvent (e) : Keeps (pushEvent e) := by unfold pushEvent; keeps
+theorem keeps_pushEvent (e) : KeepsFr (pushEvent e) := by unfold pushEvent; keeps
 macro_rules | `(tactic| keeps_known) => `(tactic| exact keeps_pushEvent _)
-theorem keeps_pushLeftEvent (e) : Keeps (pushLeftEvent e) := by unfold pushLeftEvent; keeps
+theorem keeps_pushLeftEvent (e) : KeepsFr (pushLeftEvent e) := by unfold pushLeftEvent; keeps
 macro_rules | `(tactic| keeps_known) => `(tactic| exact keeps_pushLeftEvent _)
-theorem keeps_headScores (k) : Keeps (headScores k) := by unfold headScores; keeps
+theorem keeps_headScores (k) : KeepsFr (headScores k) := by unfold headScores; keeps
 macro_rules | `(tactic| keeps_known) => `(tactic| exact keeps_headScores _)
-theorem keeps_labelPos (cfg l) : Keeps (labelPos cfg l) := by unfold labelPos; keeps
+theorem keeps_labelPos (cfg l) : KeepsFr (labelPos cfg l) := by unfold labelPos; keeps
 macro_rules | `(tactic| keeps_known) => `(tactic| exact keeps_labelPos _ _)
-theorem keeps_nameFor (f p st) : Keeps (nameFor f p st) := by unfold nameFor; keeps
+theorem keeps_nameFor (f p st) : KeepsFr (nameFor f p st) := by unfold nameFor; keeps
 macro_rules | `(tactic| keeps_known) => `(tactic| exact keeps_nameFor _ _ _)
 
 /-! ### the flow config of an instance as a pure function of the state -/
@@ -417,12 +417,12 @@ theorem nameFor_error_pos {s s1 : VM} {f : FUid} {p : Nat} {st : HeadStatus} {c 
 
 /-! ### `Lands`: where head `k` is after a statement -/
 
-/-- statements that keep the config and the data of head `k` (weaker than `Keeps`: `setFlowStatus` qualifies) -/
+/-- statements that keep the config and the data of head `k` (weaker than `KeepsFr`: `setFlowStatus` qualifies) -/
 structure PresHd {α : Type} (k : Key) (cfg : FlowCfg) (hd : Head) (x : M α) : Prop where
   run : ∀ s, cfgOf s.r k.1 = some cfg → headOf s k = some hd →
     cfgOf (resSt (x s)).r k.1 = some cfg ∧ headOf (resSt (x s)) k = some hd
 
-theorem Keeps.pres {α : Type} {x : M α} (h : Keeps x) (k : Key) (cfg : FlowCfg) (hd : Head) : PresHd k cfg hd x :=
+theorem KeepsFr.pres {α : Type} {x : M α} (h : KeepsFr x) (k : Key) (cfg : FlowCfg) (hd : Head) : PresHd k cfg hd x :=
   ⟨fun s hc hh => ⟨by rw [(h.frame s).cfgOf]; exact hc, by rw [(h.frame s).headOf]; exact hh⟩⟩
 
 theorem Lands.pure {α : Type} {k : Key} {cfg : FlowCfg} {hd : Head} {T : α → Nat → Prop} (a : α) (hT : T a hd.pos) :
@@ -445,11 +445,11 @@ theorem Lands.bind_pres {α β : Type} {k : Key} {cfg : FlowCfg} {hd : Head} {T 
     | _ => trivial
 
 theorem Lands.bind_keeps {α β : Type} {k : Key} {cfg : FlowCfg} {hd : Head} {T : β → Nat → Prop} {x : M α} {f : α → M β}
-    (hx : Keeps x) (hf : ∀ a, Lands k cfg hd T (f a)) : Lands k cfg hd T (EStateM.bind x f) :=
+    (hx : KeepsFr x) (hf : ∀ a, Lands k cfg hd T (f a)) : Lands k cfg hd T (EStateM.bind x f) :=
   Lands.bind_pres (hx.pres k cfg hd) hf
 
 theorem Lands.of_keeps {α : Type} {k : Key} {cfg : FlowCfg} {hd : Head} {T : α → Nat → Prop} {x : M α}
-    (hx : Keeps x) (hT : ∀ a, T a hd.pos) : Lands k cfg hd T x := by
+    (hx : KeepsFr x) (hT : ∀ a, T a hd.pos) : Lands k cfg hd T x := by
   refine ⟨fun s hc hh => ?_⟩
   have h1 := (hx.pres k cfg hd).run s hc hh
   cases hxs : x s with
@@ -522,7 +522,7 @@ theorem setHeadPos_spec {k : Key} {cfg : FlowCfg} {hd : Head} (p : Nat) :
         · unfold headOf; rw [hix]; exact step_setPos_head _ _ _ _ _ _ hh1 hp
       | _ => trivial
 
-/-! ### none of these touches the index component (corollaries of `Keeps`) -/
+/-! ### none of these touches the index component (corollaries of `KeepsFr`) -/
 
 theorem modifyRest_ixs (g : Rest → Rest) (s : VM) : (resSt (modifyRest g s)).ixs = s.ixs := rfl
 theorem modInstX_ixs (f : FUid) (g : InstX → InstX) (s : VM) : (resSt (modInstX f g s)).ixs = s.ixs := rfl
@@ -614,7 +614,7 @@ theorem PresHd.bind {α β : Type} {k : Key} {cfg : FlowCfg} {hd : Head} {x : M 
 theorem pres_setFlowStatus_stopping (f : FUid) (h : HUid) (cfg : FlowCfg) (hd : Head) :
     PresHd (f, h) cfg hd (setFlowStatus f .stopping) := by
   unfold setFlowStatus
-  refine PresHd.bind ?_ (fun _ => Keeps.pres (by keeps) _ _ _)
+  refine PresHd.bind ?_ (fun _ => KeepsFr.pres (by keeps) _ _ _)
   refine ⟨fun s hc hh => ?_⟩
   have hg : (Op.setFlowStatus f FlowStatus.stopping).guard s.ixs.ix = true := by
     simp only [Op.guard]
@@ -908,11 +908,11 @@ theorem slideStep_error_pos (fuel : Nat) (f : FUid) (h : HUid) (s s' : VM) (cfg 
   | inr h2 => exact h2
 
 /-- the frame facts asked for separately: none of these touches the index component -/
-theorem ixs_of_keeps {α : Type} {x : M α} (hx : Keeps x) (s : VM) : (resSt (x s)).ixs = s.ixs := (hx.frame s).ixs
+theorem ixs_of_keeps {α : Type} {x : M α} (hx : KeepsFr x) (s : VM) : (resSt (x s)).ixs = s.ixs := (hx.frame s).ixs
 
 /-! ## The token level: `slideStep` on a simple element is one `RoundMachine.Step`
 
-  `FrameQ` / `KeepsQ` = `Frame` / `Keeps` plus "the queue of internal events is unchanged"; the calculus and its lemmas are
+  `FrameQ` / `KeepsQ` = `Frame` / `KeepsFr` plus "the queue of internal events is unchanged"; the calculus and its lemmas are
   the same as above (everything except `pushEvent`, `pushLeftEvent`). -/
 
 open NemoVerif.RoundMachine
